@@ -7,6 +7,7 @@ import (
 	"io/ioutil"
 	"os"
 	"runtime"
+	"strings"
 	"sync"
 	"testing"
 	"time"
@@ -261,5 +262,81 @@ func TestVerifWitness_DC5(t *testing.T) {
 		if hit && has {
 			t.Fatalf("Row(v == 1) returned column %d, which held 0 and was set to 5 while the query ran (attempt %d): the query read bit 2 before and bits 1,0 after the write — a value never written", col, attempt)
 		}
+	}
+}
+
+// DC6 (open): top(ids=...) (TopN with ids) reads the per-row counts from the
+// rank cache without the fragment lock. A Set() that moves a column of a
+// mutex/bool field updates the counts of the old and the new row one after the
+// other while it holds the lock, so a concurrent top(ids) can report the old
+// row already without and the new row not yet with the column: a state in which
+// the column has no row, which never exists. The witness takes the writer's
+// place: it holds the fragment lock, performs the first half of the move and
+// asks top(ids=[0]) from another goroutine. The call must wait for the lock
+// (seen in its goroutine state); returning the half-updated count is the defect.
+func TestVerifWitness_DC6(t *testing.T) {
+	dir, err := ioutil.TempDir(os.Getenv("VERIF_RUNDIR"), "vc29-dc6-")
+	if err != nil {
+		t.Fatal(err)
+	}
+	defer os.RemoveAll(dir)
+	f, err := vc29OpenFragment(dir+"/0", 0, 0, nil, FieldTypeMutex)
+	if err != nil {
+		t.Fatal(err)
+	}
+	defer f.Close()
+	for _, c := range []uint64{1, 2} {
+		if _, err := f.setBit(0, c); err != nil {
+			t.Fatal(err)
+		}
+	}
+	f.mu.Lock()
+	// first half of Set(col 2, row 1): the old row is cleared, the new one not yet set
+	if _, err := f.unprotectedClearBit(0, 2); err != nil {
+		f.mu.Unlock()
+		t.Fatal(err)
+	}
+	type res struct {
+		pairs []Pair
+		err   error
+	}
+	done := make(chan res, 1)
+	go func() {
+		p, err := f.top(topOptions{RowIDs: []uint64{0}})
+		done <- res{p, err}
+	}()
+	var early *res
+	for early == nil {
+		select {
+		case r := <-done:
+			early = &r
+		default:
+		}
+		if early != nil {
+			break
+		}
+		buf := make([]byte, 1<<20)
+		buf = buf[:runtime.Stack(buf, true)]
+		blocked := false
+		for _, g := range strings.Split(string(buf), "\n\n") {
+			if strings.Contains(g, "topBitmapPairs") && (strings.Contains(g, "Mutex.Lock") || strings.Contains(g, "[semacquire")) {
+				blocked = true
+			}
+		}
+		if blocked {
+			break
+		}
+		runtime.Gosched()
+	}
+	if _, err := f.unprotectedSetBit(1, 2); err != nil {
+		f.mu.Unlock()
+		t.Fatal(err)
+	}
+	f.mu.Unlock()
+	if early != nil {
+		t.Fatalf("top(ids=[0]) returned %+v (err %v) while a Set() that moves column 2 from row 0 to row 1 held the fragment lock half-way: row 0 is reported with 1 column although no state exists in which column 2 is in neither row", early.pairs, early.err)
+	}
+	if r := <-done; r.err != nil || len(r.pairs) != 1 || r.pairs[0].Count != 1 {
+		t.Fatalf("top(ids=[0]) after the move: %+v, %v", r.pairs, r.err)
 	}
 }
